@@ -1,2 +1,2 @@
-from . import core
+from . import core, strings, iters, maps, cell, errors
 ALL_MODELS = core.REG
